@@ -5,11 +5,13 @@ use vcore::*;
 mod common;
 mod c01;
 mod c02;
+mod c03;
+mod replay;
 mod c07;
 mod c28;
 mod c29;
 
 fn main() {
     vref::field::startup_selfcheck();
-    main_with(vec![c01::prop(), c02::prop(), c07::prop(), c28::prop(), c29::prop()]);
+    main_with(vec![c01::prop(), c02::prop(), c03::prop(), c07::prop(), c28::prop(), c29::prop()]);
 }
